@@ -275,6 +275,19 @@ func (a *arena) damage() (before, after int) {
 // ---- allocation measurement ----
 
 var allocSample = []metrics.Sample{{Name: "/gc/heap/allocs:bytes"}}
+var mappedSample = []metrics.Sample{{Name: "/memory/classes/total:bytes"}}
+
+// mapped is the address space the Go runtime holds. It never shrinks (heap arenas are not unmapped), so a
+// worker that has served an evaluation with a huge allocation has less room under ulimit -v for the ones
+// that follow, and one of those could die for lack of address space through no fault of its own. A worker
+// above retireAbove therefore hands the rest of its job back and is replaced by a fresh process: every
+// evaluation starts with about 1.3 GiB of address space to itself.
+func mapped() uint64 {
+	metrics.Read(mappedSample)
+	return mappedSample[0].Value.Uint64()
+}
+
+const retireAbove = 128 << 20
 
 // allocApprox is cheap and may lag behind by the unflushed part of the per-P allocation caches (at most one
 // span per size class); it only decides whether to measure exactly.
